@@ -66,8 +66,9 @@ class DetectVarNames( ast.NodeVisitor ):
 
       if low is not None and up is not None:
         slices.append( slice(low, up) )
-      # FIXME
-      # else:
+      else:
+        # s.x[i:i+2] with a variable i is some part of s.x
+        slices.append( "*" )
 
       nodelist.append( node )
       node = node.value
@@ -168,8 +169,9 @@ class DetectVarNames( ast.NodeVisitor ):
 
       if low is not None and up is not None:
         slices.append( slice(low, up) )
-      # FIXME
-      # else:
+      else:
+        # s.x[i:i+2] with a variable i is some part of s.x
+        slices.append( "*" )
 
       nodelist.append( node )
       node = node.value
